@@ -4,6 +4,7 @@
 -/
 import SfModel.Ieee
 import SfProofs.FloatRound
+import SfProofs.FloatExact
 import SfProofs.Bytes
 namespace Sf.Ieee
 open Sf Sf.Float
@@ -84,30 +85,65 @@ theorem ofDy_normalised (f : Fmt) (s : Bool) (ex fr : Nat) (hex : 1 ≤ ex) (hfr
 
 /-! ### readers -/
 
-/-- what `f32ReadCore` computes from the four bytes of `b`, for every pattern -/
-theorem f32ReadCore_bytes (b : Nat) (hb : b < 2 ^ 32) :
-    f32ReadCore (b / 16777216 % 256) (b / 65536 % 256) (b / 256 % 256) (b % 256) =
-      if f32.expo b = 0 ∧ f32.frac b = 0 then 0
-      else f32.ofDy ⟨f32.sign b, 2 ^ 23 + f32.frac b, (if f32.expo b ≠ 0 then (f32.expo b : Int) - 127 else 0) - 23⟩ := by
+/-- what `f32ReadCoreWith` computes from the four bytes of `b`, for every pattern, under both rules -/
+theorem f32ReadCoreWith_bytes (old : Bool) (b : Nat) (hb : b < 2 ^ 32) :
+    f32ReadCoreWith old (b / 16777216 % 256) (b / 65536 % 256) (b / 256 % 256) (b % 256) =
+      if f32.expo b = 0 ∧ f32.frac b = 0 then (if old then 0 else f32.sgnBit (f32.sign b))
+      else if old then
+        f32.ofDy ⟨f32.sign b, 2 ^ 23 + f32.frac b, (if f32.expo b ≠ 0 then (f32.expo b : Int) - 127 else 0) - 23⟩
+      else if f32.expo b ≠ 0 then f32.ofDy ⟨f32.sign b, 2 ^ 23 + f32.frac b, (f32.expo b : Int) - 127 - 23⟩
+      else f32.ofDy ⟨f32.sign b, f32.frac b, -149⟩ := by
   obtain ⟨h1, h2, h3⟩ := f32_fields b
   have hE : (b / 16777216 % 256 % 128) * 2 + b / 65536 % 256 / 128 % 2 = b / 8388608 % 256 := by omega
   have hM : (b / 65536 % 256 % 128) * 65536 + (b / 256 % 256 % 256) * 256 + b % 256 % 256 = b % 8388608 := by omega
   have hS : b / 16777216 % 256 / 128 % 2 = b / 2147483648 % 2 := by omega
-  unfold f32ReadCore
+  unfold f32ReadCoreWith
   simp only [hE, hM, hS, h1, h2, h3]
-  split
-  · rfl
-  · congr 1
-    congr 1
-    · omega
-    · split <;> omega
+  by_cases hz : b / 8388608 % 256 = 0 ∧ b % 8388608 = 0
+  · simp only [hz, and_self, if_true]
+    cases old
+    · simp only [Bool.false_eq_true, if_false, Fmt.sgnBit, f32]
+      by_cases hs : b / 2147483648 % 2 = 1 <;> simp [hs]
+    · simp only [if_true]
+  · simp only [hz, if_false]
+    cases old
+    · simp only [Bool.false_eq_true, if_false]
+      by_cases he : b / 8388608 % 256 = 0
+      · simp only [he, ne_eq, not_true_eq_false, if_false]
+        congr 1
+      · simp only [he, ne_eq, not_false_eq_true, if_true]
+        congr 1
+        congr 1
+        · omega
+        · omega
+    · simp only [if_true]
+      congr 1
+      congr 1
+      · omega
+      · split <;> omega
 
-/-- what `f64ReadCore` computes from the eight bytes of `b`, for every pattern -/
-theorem f64ReadCore_bytes (b : Nat) (hb : b < 2 ^ 64) :
-    f64ReadCore (b / 72057594037927936 % 256) (b / 281474976710656 % 256) (b / 1099511627776 % 256)
+theorem f32ReadCore_bytes (b : Nat) (hb : b < 2 ^ 32) :
+    f32ReadCore (b / 16777216 % 256) (b / 65536 % 256) (b / 256 % 256) (b % 256) =
+      if f32.expo b = 0 ∧ f32.frac b = 0 then f32.sgnBit (f32.sign b)
+      else if f32.expo b ≠ 0 then f32.ofDy ⟨f32.sign b, 2 ^ 23 + f32.frac b, (f32.expo b : Int) - 127 - 23⟩
+      else f32.ofDy ⟨f32.sign b, f32.frac b, -149⟩ := by
+  have := f32ReadCoreWith_bytes false b hb
+  simpa [f32ReadCore] using this
+
+theorem f32ReadCoreOld_bytes (b : Nat) (hb : b < 2 ^ 32) :
+    f32ReadCoreOld (b / 16777216 % 256) (b / 65536 % 256) (b / 256 % 256) (b % 256) =
+      if f32.expo b = 0 ∧ f32.frac b = 0 then 0
+      else f32.ofDy ⟨f32.sign b, 2 ^ 23 + f32.frac b, (if f32.expo b ≠ 0 then (f32.expo b : Int) - 127 else 0) - 23⟩ := by
+  have := f32ReadCoreWith_bytes true b hb
+  simpa [f32ReadCoreOld] using this
+
+/-- what `f64ReadCoreWith` computes from the eight bytes of `b`, for every pattern, under both rules -/
+theorem f64ReadCoreWith_bytes (old : Bool) (b : Nat) (hb : b < 2 ^ 64) :
+    f64ReadCoreWith old (b / 72057594037927936 % 256) (b / 281474976710656 % 256) (b / 1099511627776 % 256)
         (b / 4294967296 % 256) (b / 16777216 % 256) (b / 65536 % 256) (b / 256 % 256) (b % 256) =
-      if f64.expo b = 0 ∧ f64.frac b = 0 then 0
-      else f64.ofDy ⟨f64.sign b, 2 ^ 52 + f64.frac b, (f64.expo b : Int) - 1023 - 52⟩ := by
+      if f64.expo b = 0 ∧ f64.frac b = 0 then (if old then 0 else f64.sgnBit (f64.sign b))
+      else if old = true ∨ f64.expo b ≠ 0 then f64.ofDy ⟨f64.sign b, 2 ^ 52 + f64.frac b, (f64.expo b : Int) - 1023 - 52⟩
+      else f64.ofDy ⟨f64.sign b, f64.frac b, -1074⟩ := by
   obtain ⟨h1, h2, h3⟩ := f64_fields b
   have hE : (b / 72057594037927936 % 256 % 128) * 16 + b / 281474976710656 % 256 / 16 % 16 = b / 4503599627370496 % 2048 := by omega
   have hS : b / 72057594037927936 % 256 / 128 % 2 = b / 9223372036854775808 % 2 := by omega
@@ -132,32 +168,57 @@ theorem f64ReadCore_bytes (b : Nat) (hb : b < 2 ^ 64) :
     rw [this, k3] at k2
     clear hE hS hU hW h1 h2 h3 hb this e k3
     omega
-  unfold f64ReadCore
+  unfold f64ReadCoreWith
   simp only [hE, hS, hU, hW]
-  unfold f64ReadValue
+  unfold f64ReadValueWith
   simp only [h1, h2, h3]
-  split
-  · rename_i hc
-    have : b / 4503599627370496 % 2048 = 0 ∧ b % 4503599627370496 = 0 := by omega
-    simp only [this, and_self, if_true]
-  · rename_i hc
-    have : ¬ (b / 4503599627370496 % 2048 = 0 ∧ b % 4503599627370496 = 0) := by omega
-    simp only [this, if_false]
-    congr 1
-    congr 1
-    · omega
-    · omega
+  by_cases hz : b / 4503599627370496 % 2048 = 0 ∧ b % 4503599627370496 = 0
+  · have hz2 : b / 4503599627370496 % 2048 = 0 ∧ b / 16777216 % 268435456 = 0 ∧ b % 16777216 = 0 := by omega
+    simp only [hz, hz2, and_self, if_true]
+    cases old
+    · simp only [Bool.false_eq_true, if_false, Fmt.sgnBit, f64]
+      by_cases hs : b / 9223372036854775808 % 2 = 1 <;> simp [hs]
+    · simp only [if_true]
+  · have hz2 : ¬ (b / 4503599627370496 % 2048 = 0 ∧ b / 16777216 % 268435456 = 0 ∧ b % 16777216 = 0) := by omega
+    simp only [hz, hz2, if_false]
+    by_cases hc : old = true ∨ b / 4503599627370496 % 2048 ≠ 0
+    · simp only [hc, if_true]
+      congr 1
+      congr 1
+      · omega
+      · omega
+    · simp only [hc, if_false]
+      congr 1
+      congr 1
+      all_goals omega
+
+theorem f64ReadCore_bytes (b : Nat) (hb : b < 2 ^ 64) :
+    f64ReadCore (b / 72057594037927936 % 256) (b / 281474976710656 % 256) (b / 1099511627776 % 256)
+        (b / 4294967296 % 256) (b / 16777216 % 256) (b / 65536 % 256) (b / 256 % 256) (b % 256) =
+      if f64.expo b = 0 ∧ f64.frac b = 0 then f64.sgnBit (f64.sign b)
+      else if f64.expo b ≠ 0 then f64.ofDy ⟨f64.sign b, 2 ^ 52 + f64.frac b, (f64.expo b : Int) - 1023 - 52⟩
+      else f64.ofDy ⟨f64.sign b, f64.frac b, -1074⟩ := by
+  have := f64ReadCoreWith_bytes false b hb
+  simpa [f64ReadCore] using this
+
+theorem f64ReadCoreOld_bytes (b : Nat) (hb : b < 2 ^ 64) :
+    f64ReadCoreOld (b / 72057594037927936 % 256) (b / 281474976710656 % 256) (b / 1099511627776 % 256)
+        (b / 4294967296 % 256) (b / 16777216 % 256) (b / 65536 % 256) (b / 256 % 256) (b % 256) =
+      if f64.expo b = 0 ∧ f64.frac b = 0 then 0
+      else f64.ofDy ⟨f64.sign b, 2 ^ 52 + f64.frac b, (f64.expo b : Int) - 1023 - 52⟩ := by
+  have := f64ReadCoreWith_bytes true b hb
+  simpa [f64ReadCoreOld] using this
 
 /-! ### writers -/
 
 /-- the fields `float32_*_write` computes for a normal value that is not flushed: the IEEE fields -/
-theorem f32WriteFields_normal (b : Nat) (hn : f32.isNormal b = true) (hfl : flushes f32 b = false) :
-    f32WriteFields b = some ((if f32.sign b then 1 else 0), f32.expo b, f32.frac b) := by
+theorem f32WriteFieldsWith_normal (fl : Nat → Bool) (b : Nat) (hn : f32.isNormal b = true) (hfl : fl b = false) :
+    f32WriteFieldsWith fl b = some ((if f32.sign b then 1 else 0), f32.expo b, f32.frac b) := by
   have hne : f32.expo b ≠ f32.emax ∧ f32.expo b ≠ 0 := by simpa [Fmt.isNormal] using hn
   have hfin : f32.isFinite b = true := by simp [Fmt.isFinite, hne.1]
   have hfr : f32.frac b < 2 ^ 23 := by simp [Fmt.frac, f32]; omega
   have hL : bitLen (2 ^ 23 + f32.frac b) = 24 := bitLen_unique _ _ (by simp) (by omega) (by omega)
-  unfold f32WriteFields
+  unfold f32WriteFieldsWith
   simp only [hfin, hfl, Bool.not_true, Bool.false_eq_true, if_false]
   have hd : f32.toDy b = ⟨f32.sign b, 2 ^ 23 + f32.frac b, (f32.expo b : Int) - 1 + f32.qmin⟩ := by
     unfold Fmt.toDy; simp only [hne.2, if_false]; rfl
@@ -170,13 +231,13 @@ theorem f32WriteFields_normal (b : Nat) (hn : f32.isNormal b = true) (hfl : flus
   · rw [hq]; push_cast; omega
   · omega
 
-theorem f64WriteFields_normal (b : Nat) (hn : f64.isNormal b = true) (hfl : flushes f64 b = false) :
-    f64WriteFields b = some ((if f64.sign b then 1 else 0), f64.expo b, 2 ^ 28 + f64.frac b / 2 ^ 24, f64.frac b % 2 ^ 24) := by
+theorem f64WriteFieldsWith_normal (fl : Nat → Bool) (b : Nat) (hn : f64.isNormal b = true) (hfl : fl b = false) :
+    f64WriteFieldsWith fl b = some ((if f64.sign b then 1 else 0), f64.expo b, 2 ^ 28 + f64.frac b / 2 ^ 24, f64.frac b % 2 ^ 24) := by
   have hne : f64.expo b ≠ f64.emax ∧ f64.expo b ≠ 0 := by simpa [Fmt.isNormal] using hn
   have hfin : f64.isFinite b = true := by simp [Fmt.isFinite, hne.1]
   have hfr : f64.frac b < 2 ^ 52 := by simp [Fmt.frac, f64]; omega
   have hL : bitLen (2 ^ 52 + f64.frac b) = 53 := bitLen_unique _ _ (by simp) (by omega) (by omega)
-  unfold f64WriteFields
+  unfold f64WriteFieldsWith
   simp only [hfin, hfl, Bool.not_true, Bool.false_eq_true, if_false]
   have hd : f64.toDy b = ⟨f64.sign b, 2 ^ 52 + f64.frac b, (f64.expo b : Int) - 1 + f64.qmin⟩ := by
     unfold Fmt.toDy; simp only [hne.2, if_false]; rfl
@@ -190,4 +251,83 @@ theorem f64WriteFields_normal (b : Nat) (hn : f64.isNormal b = true) (hfl : flus
   · rw [Prod.mk.injEq]
     constructor <;> omega
 
+/-! ### the flush rules as statements about fields and patterns -/
+
+theorem abs_val (a : Dy) : a.abs.val = a.mag := by simp [Dy.abs, Dy.val, Dy.mag]
+
+theorem toDy_normal (f : Fmt) (b : Nat) (h : f.expo b ≠ 0) :
+    f.toDy b = ⟨f.sign b, 2 ^ f.mbits + f.frac b, (f.expo b : Int) - 1 + f.qmin⟩ := by
+  unfold Fmt.toDy; simp only [h, if_false]
+theorem toDy_subnormal (f : Fmt) (b : Nat) (h : f.expo b = 0) : f.toDy b = ⟨f.sign b, f.frac b, f.qmin⟩ := by
+  unfold Fmt.toDy; simp only [h, if_true]
+
+theorem frac_lt (f : Fmt) (b : Nat) : f.frac b < 2 ^ f.mbits := Nat.mod_lt _ (two_pow_pos' _)
+
+/-- lower and upper bounds of the magnitude from the fields -/
+theorem mag_ge_of_normal (f : Fmt) (b : Nat) (h : f.expo b ≠ 0) :
+    (2 : ℚ) ^ ((f.mbits : ℤ) + ((f.expo b : ℤ) - 1 + f.qmin)) ≤ (f.toDy b).mag := by
+  rw [toDy_normal f b h]
+  simp only [Dy.mag]
+  exact le_mul_zpow (2 ^ f.mbits + f.frac b) f.mbits _ (by omega)
+theorem mag_lt_of_normal (f : Fmt) (b : Nat) (h : f.expo b ≠ 0) :
+    (f.toDy b).mag < (2 : ℚ) ^ (((f.mbits + 1 : Nat) : ℤ) + ((f.expo b : ℤ) - 1 + f.qmin)) := by
+  rw [toDy_normal f b h]
+  have := frac_lt f b
+  simp only [Dy.mag]
+  exact mul_zpow_lt (2 ^ f.mbits + f.frac b) (f.mbits + 1) _ (by rw [Nat.pow_succ]; omega)
+theorem mag_lt_of_subnormal (f : Fmt) (b : Nat) (h : f.expo b = 0) :
+    (f.toDy b).mag < (2 : ℚ) ^ ((f.mbits : ℤ) + f.qmin) := by
+  rw [toDy_subnormal f b h]
+  simp only [Dy.mag]
+  exact mul_zpow_lt (f.frac b) f.mbits _ (frac_lt f b)
+
+/-- the repaired rule: a normal value is never flushed -/
+theorem flushes_normal (f : Fmt) (b : Nat) (hn : f.isNormal b = true) : flushes f b = false := by
+  have hne : f.expo b ≠ f.emax ∧ f.expo b ≠ 0 := by simpa [Fmt.isNormal] using hn
+  have hfin : f.isFinite b = true := by simp [Fmt.isFinite, hne.1]
+  unfold flushes
+  rw [hfin, Bool.true_and, Bool.eq_false_iff]
+  intro h
+  rw [Dy.lt_iff, abs_val] at h
+  have h1 := mag_ge_of_normal f b hne.2
+  have h2 : (flushBound f).val = (2 : ℚ) ^ (1 - (f.bias : ℤ)) := by simp [flushBound, Dy.val]
+  have h3 : (2 : ℚ) ^ (1 - (f.bias : ℤ)) ≤ 2 ^ ((f.mbits : ℤ) + ((f.expo b : ℤ) - 1 + f.qmin)) :=
+    zpow2_le (by unfold Fmt.qmin; omega)
+  rw [h2] at h
+  linarith
+
+/-- … and every zero or subnormal is -/
+theorem flushes_expo_zero (f : Fmt) (b : Nat) (hfin : f.isFinite b = true) (h0 : f.expo b = 0) : flushes f b = true := by
+  unfold flushes
+  rw [hfin, Bool.true_and, Dy.lt_iff, abs_val]
+  have h1 := mag_lt_of_subnormal f b h0
+  have h2 : (flushBound f).val = (2 : ℚ) ^ (1 - (f.bias : ℤ)) := by simp [flushBound, Dy.val]
+  have h3 : ((f.mbits : ℤ) + f.qmin) = 1 - (f.bias : ℤ) := by unfold Fmt.qmin; omega
+  rw [h2, ← h3]; exact h1
+
+/-- the magnitude is monotone in (exponent field, fraction field), lexicographically -/
+theorem toDy_mag_mono (f : Fmt) (a b : Nat)
+    (h : f.expo a < f.expo b ∨ (f.expo a = f.expo b ∧ f.frac a ≤ f.frac b)) : (f.toDy a).mag ≤ (f.toDy b).mag := by
+  rcases h with h | ⟨he, hfr⟩
+  · have hb0 : f.expo b ≠ 0 := by omega
+    have hb := mag_ge_of_normal f b hb0
+    by_cases ha0 : f.expo a = 0
+    · have ha := mag_lt_of_subnormal f a ha0
+      have : (2 : ℚ) ^ ((f.mbits : ℤ) + f.qmin) ≤ 2 ^ ((f.mbits : ℤ) + ((f.expo b : ℤ) - 1 + f.qmin)) := zpow2_le (by omega)
+      linarith
+    · have ha := mag_lt_of_normal f a ha0
+      have : (2 : ℚ) ^ (((f.mbits + 1 : Nat) : ℤ) + ((f.expo a : ℤ) - 1 + f.qmin)) ≤ 2 ^ ((f.mbits : ℤ) + ((f.expo b : ℤ) - 1 + f.qmin)) :=
+        zpow2_le (by push_cast; omega)
+      linarith
+  · have hcast : ((f.frac a : ℕ) : ℚ) ≤ (f.frac b : ℚ) := by exact_mod_cast hfr
+    by_cases ha0 : f.expo a = 0
+    · rw [toDy_subnormal f a ha0, toDy_subnormal f b (by omega)]
+      simp only [Dy.mag]
+      exact mul_le_mul_of_nonneg_right hcast (le_of_lt (two_zpow_pos _))
+    · rw [toDy_normal f a ha0, toDy_normal f b (by omega), he]
+      simp only [Dy.mag]
+      apply mul_le_mul_of_nonneg_right _ (le_of_lt (two_zpow_pos _))
+      push_cast; linarith
+
 end Sf.Ieee
+
